@@ -215,6 +215,8 @@ class Canon:
             v = self.const_of(e)
             if isinstance(v, (int, bytes, str)) and not isinstance(v, bool):
                 return ast.Constant(v)
+            if isinstance(v, (tuple, list)) and 0 < len(v) <= 16 and all(isinstance(x, (int, bytes, str)) and not isinstance(x, bool) for x in v):
+                return ast.Tuple([ast.Constant(x) for x in v], ast.Load())
         if isinstance(e, ast.Slice):
             e.lower = self.linear(e.lower, True) if e.lower is not None else None
             e.upper = self.linear(e.upper, True) if e.upper is not None else None
@@ -248,6 +250,8 @@ class Canon:
                 v = df.const_int(e)
                 if v is not None:
                     return ast.Constant(v)
+                if isinstance(e.op, ast.Div) and b.value != 0 and a.value % b.value == 0:
+                    return ast.Constant(a.value // b.value)      # exact: equal to the float in every comparison
             if isinstance(a, ast.Constant) and isinstance(b, ast.Constant) and isinstance(a.value, (bytes, str)) and type(a.value) is type(b.value) and isinstance(e.op, ast.Add):
                 return ast.Constant(a.value + b.value)
             for s_, n_ in ((a, b), (b, a)):
@@ -369,6 +373,11 @@ class Canon:
 def _cmp_atoms(canon, left, op, right, leaf):
     """formula for one comparison, reduced to == and < atoms"""
     lt, rt = norm(left), norm(right)
+    if isinstance(left, ast.Constant) and isinstance(right, ast.Constant) and type(left.value) is type(right.value) and isinstance(left.value, (int, str, bytes)) \
+            and isinstance(op, (ast.Eq, ast.NotEq, ast.Lt, ast.Gt, ast.LtE, ast.GtE)):
+        import operator
+        fn = {ast.Eq: operator.eq, ast.NotEq: operator.ne, ast.Lt: operator.lt, ast.Gt: operator.gt, ast.LtE: operator.le, ast.GtE: operator.ge}[type(op)]
+        return bool(fn(left.value, right.value))
     if isinstance(op, (ast.Eq, ast.NotEq)):
         a, b = sorted([lt, rt])
         f = leaf(ast.Compare(left if lt == a else right, [ast.Eq()], [right if lt == a else left]), "%s == %s" % (a, b))
@@ -856,6 +865,9 @@ def _prop_feasible(f):
     if f is False:
         return False
     try:
+        if "'set'" not in repr(f):
+            r = _bitparallel([f])
+            return True if r is None else r[0][0] != 0
         ops = gi.f_opaques(f)
         if len(ops) > 12:
             return True
@@ -943,7 +955,16 @@ def make_const_of(ctx, fi):
         root = e
         while isinstance(root, ast.Attribute):
             root = root.value
-        if isinstance(root, ast.Name) and root.id not in locals_ and root.id not in ("self", "cls", "class_"):
+        if isinstance(root, ast.Name) and root.id in ("self", "cls", "class_") and isinstance(e, ast.Attribute) and e.value is root and fi.cls is not None and e.attr.isupper() | e.attr.strip("_").isupper():
+            try:
+                for c in ctx.p.mro(fi.cls):
+                    a = c.attrs.get(e.attr)
+                    if a is not None:
+                        v = ast.literal_eval(a)
+                        break
+            except Exception:
+                v = None
+        elif isinstance(root, ast.Name) and root.id not in locals_ and root.id not in ("self", "cls", "class_"):
             r = ctx.p.resolve_expr_static(fi.module, e)
             if isinstance(r, tuple) and r[0] == "const":
                 try:
@@ -1232,7 +1253,10 @@ def summarize(func_node, canon, leaf=None, keep=()):
                 w.env = s.env
                 raw.append(("loop-iter", [hdr, " for ", n.target, " in ", w.sub(n.iter)], s.reach))
         else:
-            raw.append(("loop-iter", [hdr, " while ", w.tests.get(id(n)) or n.test], True))
+            t_ = w.tests.get(id(n)) or n.test
+            if isinstance(t_, ast.Constant):
+                t_ = ast.Constant(bool(t_.value))
+            raw.append(("loop-iter", [hdr, " while ", t_], True))
         assigned = set()
         for x in n.body:
             for y in ast.walk(x):
@@ -1284,7 +1308,28 @@ def summarize(func_node, canon, leaf=None, keep=()):
             if isinstance(p_, str):
                 import re
                 surviving |= set(re.findall(r"[A-Za-z_][A-Za-z_0-9]*", p_)) & locals_ if k == "effect" else set()
-    order = sorted(surviving, key=lambda nm: pos[nm])
+    # name-independent order: a local is identified by the contexts it occurs in (itself written @, other locals _)
+    def signature(nm):
+        anon = {o: "_" for o in surviving}
+        anon[nm] = "@"
+        sig = []
+        for k, parts, cond in raw:
+            txt = k + ":"
+            hit = False
+            for p_ in parts:
+                if isinstance(p_, ast.AST):
+                    if any(isinstance(x, ast.Name) and x.id == nm for x in ast.walk(p_)):
+                        hit = True
+                    txt += norm(_rename(p_, anon))
+                else:
+                    txt += p_ if k != "effect" else _rename_text(p_, anon)
+            if nm in _formula_names(cond):
+                hit = True
+            if hit:
+                sig.append(txt + repr(_sort_formula(_rename_formula(cond, anon))))
+        return sorted(sig)
+    sigs = {nm: signature(nm) for nm in surviving}
+    order = sorted(surviving, key=lambda nm: (sigs[nm], pos[nm]))
     ren = {nm: "_v%d" % i for i, nm in enumerate(order)}
     items = []
     for k, parts, cond in raw:
@@ -1322,10 +1367,68 @@ def _tokens(t):
     return re.findall(r"[A-Za-z_][A-Za-z_0-9]*|\d+|[^\sA-Za-z_0-9]", t)
 
 
+def _bitparallel(fs):
+    """truth tables of several formulas over their joint atoms as big integers (one bit per assignment);
+    value-set atoms are treated as independent propositions named by their repr"""
+    atoms = []
+
+    def collect(f):
+        if f in (True, False):
+            return
+        if f[0] in ("op", "set"):
+            k = repr(f)
+            if k not in atoms:
+                atoms.append(k)
+        elif f[0] == "not":
+            collect(f[1])
+        else:
+            for g in f[1]:
+                collect(g)
+    for f in fs:
+        collect(f)
+    n = len(atoms)
+    if n > 22:
+        return None
+    size = 1 << n
+    full = (1 << size) - 1
+    masks = {}
+    for i, a in enumerate(atoms):
+        block = ((1 << (1 << i)) - 1) << (1 << i)
+        masks[a] = block * (full // ((1 << (1 << (i + 1))) - 1))
+
+    def ev(f):
+        if f is True:
+            return full
+        if f is False:
+            return 0
+        if f[0] in ("op", "set"):
+            return masks[repr(f)]
+        if f[0] == "not":
+            return full ^ ev(f[1])
+        if f[0] == "and":
+            r = full
+            for g in f[1]:
+                r &= ev(g)
+            return r
+        r = 0
+        for g in f[1]:
+            r |= ev(g)
+        return r
+    return [ev(f) for f in fs], full
+
+
 def _equiv(f1, f2):
     if repr(_sort_formula(f1)) == repr(_sort_formula(f2)):
         return True
     try:
+        r = _bitparallel([f1, f2])
+        if r is not None:
+            (a, b), full = r
+            if a == b:
+                return True
+            has_sets = "'set'" in repr(f1) or "'set'" in repr(f2)
+            if not has_sets:
+                return False
         ops = set(gi.f_opaques(f1) if f1 not in (True, False) else []) | set(gi.f_opaques(f2) if f2 not in (True, False) else [])
         if len(ops) > 12:
             return False
@@ -1483,6 +1586,10 @@ def entails(a, b, univ=None, empty=None):
         return True
     if f is True:
         return False
+    if "'set'" not in repr(f):
+        r = _bitparallel([f])
+        if r is not None:
+            return r[0][0] == 0
     for asg in _assignments(f):
         if not gi.f_eval(f, asg, univ, empty).is_empty():
             return False
